@@ -34,14 +34,17 @@ type c16Case struct {
 	Op      string // idle execve open reset ptrace
 	Point   string // named point at which the controller announces itself and blocks ("" = random delay)
 	DelayUs int
-	Shape   int    // program shape selector
-	Tag     string `json:"tag,omitempty"`
+	Shape   int // program shape selector
+	// ptrace-direct: Shape selects seccomp / credential change; Prog selects the program (0 = single sleeper, 1..3 = the
+	// forked trees of c16Program: their members are followed by the tracer or not, but none may outlive it)
+	Prog int    `json:",omitempty"`
+	Tag  string `json:"tag,omitempty"`
 }
 
 var c16Points = map[string][]string{
 	"execve":        {"execve:sent", "execve:sync-reply", "execve:synced", "execve:ok-sent", "execve:wait", "syncfunc", "running"},
 	"ptrace":        {"syncfunc", "check0", "check3", "running"},
-	"ptrace-direct": {"syncfunc", "syncfunc-stopchild"},
+	"ptrace-direct": {"syncfunc", "syncfunc-stopchild", "running"},
 	"unshare":       {"syncfunc"}, // only the launch hand-shake (shared with the tracer's and the container's launches); a *running* namespace-runner program is outside the statement
 	"idle":          {"idle"},
 	"open":          {"before-open"},
@@ -168,6 +171,16 @@ func c16Controller() {
 		var ps probe.Script
 		ps.Add("sleep:600000")
 		ps.Add("exit:0")
+		if c.Prog > 0 {
+			ps = *c16Program(c.Prog)
+		}
+		if c.Point == "running" {
+			go func() {
+				time.Sleep(40 * time.Millisecond) // the tree exists by then
+				say("running")
+				say("at running")
+			}()
+		}
 		r := &forkexec.Runner{Args: ps.Argv(c.Tag, 3), Env: []string{"A=1"}, ExecFile: efd, Files: []uintptr{dn.Fd(), dn.Fd(), dn.Fd()}, Ptrace: true,
 			SyncFunc: func(pid int) error { say("pid %d", pid); stopChild(pid); block("syncfunc"); return nil }}
 		if c.Shape&1 != 0 {
@@ -371,14 +384,18 @@ wait:
 		}
 		time.Sleep(5 * time.Millisecond)
 	}
-	rec.Case(c, aliveBefore, "op="+c.Op, "point="+c.Point, fmt.Sprintf("shape=%d", c.Shape%4))
+	cl := []string{"op=" + c.Op, "point=" + c.Point, fmt.Sprintf("shape=%d", c.Shape%4)}
+	if c.Op == "ptrace-direct" {
+		cl = append(cl, fmt.Sprintf("direct(seccomp=%v,cred=%v,program=%d)", c.Shape&1 != 0, c.Shape&2 != 0, c.Prog%4))
+	}
+	rec.Case(c, aliveBefore, cl...)
 	if aliveBefore && rec.WantSample() {
 		rec.Sample(c)
 	}
 	return nil
 }
 
-const c16Rule = "case = operation of a helper controller process in {container idle, Execve, Open loop, Reset loop, ptrace run, forkexec.Runner driven by ptracer.Tracer directly with/without seccomp and with/without a credential change} x program shape (single process; signal-ignoring forked tree; spinning grandchild; thread + forked child) x crash point in {each named host point of Execve (sent, sync-reply, synced, ok-sent, wait), inside SyncFunc, just after the launch hand-shake with the child held by SIGSTOP (the tracer has not seen its first stop yet), inside the first / fourth Handler callback (tracee stopped in a syscall), while the program runs, idle, before Open / Reset, or a random delay of 0..20 ms}; the harness SIGKILLs the controller there; " +
+const c16Rule = "case = operation of a helper controller process in {container idle, Execve, Open loop, Reset loop, ptrace run, forkexec.Runner driven by ptracer.Tracer directly with/without seccomp and with/without a credential change, single sleeper or forked tree} x program shape (single process; signal-ignoring forked tree; spinning grandchild; thread + forked child) x crash point in {each named host point of Execve (sent, sync-reply, synced, ok-sent, wait), inside SyncFunc, just after the launch hand-shake with the child held by SIGSTOP (the tracer has not seen its first stop yet), inside the first / fourth Handler callback (tracee stopped in a syscall), while the program runs, idle, before Open / Reset, or a random delay of 0..20 ms}; the harness SIGKILLs the controller there; " +
 	"oracle: within 5 s the container init (announced by the controller) and every process carrying the run's tag are gone from the host; non-trivial = a tagged program process was alive when the controller was killed; the enumeration test crosses every point with every shape"
 
 func TestC16Enumerate(t *testing.T) {
@@ -399,6 +416,9 @@ func TestC16Enumerate(t *testing.T) {
 			}
 			for _, sh := range shapes {
 				c := c16Case{Op: op, Point: pt, Shape: sh}
+				if op == "ptrace-direct" && pt == "running" {
+					c.Prog = 1 + (n+sh)%3
+				}
 				if err := c16Run(c, rec); err != nil {
 					vh.Report(t, rec, c, err)
 					if _, infra := err.(vh.Infra); infra {
@@ -419,7 +439,12 @@ func TestC16Random(t *testing.T) {
 		c := c16Case{Op: rapid.SampledFrom([]string{"execve", "execve", "ptrace", "ptrace", "ptrace-direct", "ptrace-direct", "open", "reset", "idle"}).Draw(rt, "op"), Shape: rapid.IntRange(0, 3).Draw(rt, "shape")}
 		c.DelayUs = rapid.OneOf(rapid.IntRange(0, 2000), rapid.IntRange(0, 20000)).Draw(rt, "delay")
 		if c.Op == "ptrace-direct" {
-			c.DelayUs %= 3000 // the launch window
+			c.Prog = rapid.IntRange(0, 3).Draw(rt, "prog")
+			if c.Prog == 0 {
+				c.DelayUs %= 3000 // the launch window
+			} else {
+				c.DelayUs = 5000 + c.DelayUs // once the tree exists
+			}
 		}
 		return c
 	}, func(c c16Case) error { return c16Run(c, rec) })
